@@ -6,6 +6,7 @@ package main
 // the outcome of all Ifs of one correlation group; infeasible edges are cut.
 
 import (
+	"fmt"
 	"go/token"
 
 	"golang.org/x/tools/go/ssa"
@@ -82,13 +83,22 @@ func correlatedIfs(g *IG, z *Polyizer) []corrGroup {
 			continue
 		}
 		f, ok := condFact(g.Cond(n), true)
-		if !ok || f.Y == nil || !stableOperand(f.X) || !stableOperand(f.Y) {
+		if !ok {
 			continue
 		}
-		if !isIntegral(f.X.Type()) {
-			continue
+		var key string
+		if prm, isP := f.X.(*ssa.Parameter); isP && f.Y == nil && f.Op == token.EQL {
+			// a boolean parameter tested more than once
+			key = fmt.Sprintf("bool parameter %s of %s", prm.Name(), prm.Parent())
+		} else {
+			if f.Y == nil || !stableOperand(f.X) || !stableOperand(f.Y) {
+				continue
+			}
+			if !isIntegral(f.X.Type()) {
+				continue
+			}
+			key = z.Of(f.X).String() + " " + f.Op.String() + " " + z.Of(f.Y).String()
 		}
-		key := z.Of(f.X).String() + " " + f.Op.String() + " " + z.Of(f.Y).String()
 		if _, seen := byKey[key]; !seen {
 			order = append(order, key)
 		}
@@ -126,6 +136,9 @@ func resolvePhi(g *IG, v ssa.Value, cut map[Edge]bool) ssa.Value {
 		if cut[pe[i]] || !reach[pe[i].From] {
 			continue
 		}
+		if e == ssa.Value(phi) {
+			continue // carried round a loop unchanged
+		}
 		res = e
 		n++
 	}
@@ -133,4 +146,60 @@ func resolvePhi(g *IG, v ssa.Value, cut map[Edge]bool) ssa.Value {
 		return resolvePhi(g, res, cut)
 	}
 	return nil
+}
+
+// FactsAtUnder: the facts of the test edges that every path to target crosses
+// when the edges in cut are infeasible.
+func (g *IG) FactsAtUnder(target int, cut map[Edge]bool) []Fact {
+	var out []Fact
+	base := g.Reach([]int{0}, cut, nil)
+	if !base[target] {
+		return nil
+	}
+	for _, f := range g.rawEdgeFacts() {
+		if !base[f.Edge.From] || cut[f.Edge] {
+			continue
+		}
+		c2 := map[Edge]bool{f.Edge: true}
+		for e := range cut {
+			c2[e] = true
+		}
+		if !g.Reach([]int{0}, c2, nil)[target] {
+			out = append(out, f)
+		}
+	}
+	return out
+}
+
+// holdsInScenarios: pred holds for the facts at target, or there is a test that
+// is made more than once (the same comparison of values that do not change in
+// between) such that pred holds in each of its two outcomes: with the edges of
+// the other outcome cut at every copy of the test. (`if a && b {..}; if a {X}`:
+// X is reached with a true, so b was false.) An outcome under which target is
+// unreachable holds vacuously.
+func (g *IG) holdsInScenarios(target int, extra []Fact, pred func(facts []Fact, cut map[Edge]bool) bool) bool {
+	if pred(append(append([]Fact(nil), extra...), g.FactsAt(target)...), nil) {
+		return true
+	}
+	z := &Polyizer{}
+	for _, grp := range correlatedIfs(g, z) {
+		if len(grp.Ifs) < 2 {
+			continue
+		}
+		all := true
+		for taken := 0; taken < 2 && all; taken++ {
+			cut := scenarioCut(grp, taken)
+			if !g.Reach([]int{0}, cut, nil)[target] {
+				continue
+			}
+			fs := append(append([]Fact(nil), extra...), g.FactsAtUnder(target, cut)...)
+			if !pred(fs, cut) {
+				all = false
+			}
+		}
+		if all {
+			return true
+		}
+	}
+	return false
 }
